@@ -52,7 +52,15 @@ def run_thorough(ctx, mod):
                                 "violations": len(c2.violations)})
         ctx.log(f"release-like cfg pass: {len(c2.obs)} obligations, {len(c2.violations)} violations (incl. known)")
     # ---- (b) self-validation on seeded changes
-    seeded = sorted(glob.glob(os.path.join(F.VERIF, "seeded", f"{ctx.pid}_m*")))
+    seeded = []
+    for d in sorted(glob.glob(os.path.join(F.VERIF, "seeded", "C*_m*"))):
+        try:
+            meta = json.load(open(os.path.join(d, "meta.json")))
+        except (OSError, ValueError):
+            meta = {}
+        # a change is used to self-validate every check that is expected to see it
+        if ctx.pid in (meta.get("expected_checks") or [meta.get("property", os.path.basename(d)[:3])]):
+            seeded.append(d)
     known, _ = ctx.known()
     for d in seeded:
         sid = os.path.basename(d)
